@@ -33,3 +33,9 @@ Lemma caller_header_impl_l action pre post k1 v1 :
   str_eqb (lower k1) l_content_type = false -> str_eqb (lower k1) l_soapaction = false ->
   dict_get (lower k1) (u2_headers (soap_headers impl_params action (pre ++ (k1, v1) :: post))) = Some v1.
 Proof. rewrite impl_is_std_l. apply caller_header_delivered_l. Qed.
+
+Lemma header_values_from_caller_impl_l action opts k v :
+  dict_get k (u2_headers (soap_headers impl_params action opts)) = Some v ->
+  (exists k', In (k', v) opts /\ str_eqb k (lower k') = true) \/
+  (k = l_content_type /\ v = v_text_xml_utf8) \/ (k = l_soapaction /\ v = action).
+Proof. rewrite impl_is_std_l. apply header_values_from_caller_l. Qed.
